@@ -16,7 +16,8 @@ From V Require Import Base.Util Base.Strings Base.Result Model.Registry Model.Se
   Checkers.Parse Checkers.Sem Model.Unparse Corr.RunC05
   Proofs.GenProofs Proofs.GenTotal Proofs.ClosedProofs Proofs.FidelityBase Proofs.FidelityGen
   Proofs.ParseTy Proofs.ParseItem Proofs.ParseMod Proofs.ParseClosed
-  Proofs.SourceRoundTrip Proofs.SourceSkeleton Proofs.SourceReading.
+  Proofs.SourceRoundTrip Proofs.SourceSkeleton Proofs.SourceReading Proofs.RegistryOfSound
+  Model.ProgramTeq Model.ProgramExamples.
 Import ListNotations.
 Open Scope string_scope. Open Scope list_scope.
 
@@ -668,3 +669,189 @@ Section RoundTrip.
     apply (Hp (sd_path sd, (id0, ir))). apply items_get_In_some. exact Hget.
   Qed.
 End RoundTrip.
+
+(** * 5. the instantiation of [expected_item] used by the checker [prop_source_roundtrip]
+
+    [expected_item] only depends on the values of its [order_path] argument *)
+Section OrderExt.
+  Variable defs : list sdef.
+  Variable root : string.
+  Variable alloc : list string.
+  Variables cpt bts : list string * bool.
+  Variables o1 o2 : bool -> pty.
+  Hypothesis Ho : forall lsb, o1 lsb = o2 lsb.
+
+  Let p1 := src_pty defs root alloc cpt bts o1.
+  Let p2 := src_pty defs root alloc cpt bts o2.
+
+  Lemma src_pty_ext_n : forall n t, (src_size t <= n)%nat -> p1 t = p2 t.
+  Proof.
+    induction n as [|n IH]; intros t Hsz; [destruct t; cbn [src_size] in Hsz; lia|].
+    unfold p1, p2.
+    destruct t as [i|d' xs|x|x|len x|xs|p|x|x|x|a b|a b|x|x|x|st lsb]; cbn [src_size] in Hsz; cbn [src_pty];
+      fold p1 p2; try reflexivity;
+      try (rewrite (IH x) by lia; reflexivity);
+      try (rewrite (IH a), (IH b) by lia; reflexivity).
+    - (* application *)
+      change (S (sizes xs) <= S n)%nat in Hsz.
+      assert (Hx : forall x, In x xs -> p1 x = p2 x).
+      { intros x Hx. apply IH. pose proof (sizes_In _ _ Hx). lia. }
+      clear Hsz. cbv zeta. f_equal. f_equal. f_equal. f_equal.
+      generalize (match nth_error defs d' with Some sd => map snd (sd_params sd) | None => [] end).
+      induction xs as [|x xs IHxs]; intros sk; [destruct sk; reflexivity|].
+      assert (E : p1 x = p2 x) by (apply Hx; left; reflexivity).
+      assert (Hx' : forall y, In y xs -> p1 y = p2 y) by (intros y Hy; apply Hx; right; exact Hy).
+      destruct sk as [|[|] sk]; cbn; rewrite ?E, (IHxs Hx'); reflexivity.
+    - (* tuple *)
+      change (S (sizes xs) <= S n)%nat in Hsz.
+      assert (Hx : forall x, In x xs -> p1 x = p2 x).
+      { intros x Hx. apply IH. pose proof (sizes_In _ _ Hx). lia. }
+      clear Hsz. f_equal.
+      induction xs as [|x xs IHxs]; [reflexivity|].
+      assert (E : p1 x = p2 x) by (apply Hx; left; reflexivity).
+      assert (Hx' : forall y, In y xs -> p1 y = p2 y) by (intros y Hy; apply Hx; right; exact Hy).
+      cbn. rewrite E, (IHxs Hx'). reflexivity.
+    - (* bit sequence *) rewrite Ho. reflexivity.
+  Qed.
+
+  Lemma src_pty_ext t : p1 t = p2 t.
+  Proof. apply (src_pty_ext_n (src_size t)). apply le_n. Qed.
+
+  Lemma field_pty_ext f :
+    Program.field_pty defs root alloc cpt bts o1 f = Program.field_pty defs root alloc cpt bts o2 f.
+  Proof.
+    unfold Program.field_pty. fold p1 p2.
+    destruct (sf_ty f) as [i|d' xs|x|x|len x|xs|p|x|x|x|a b|a b|x|x|x|st lsb]; rewrite ?src_pty_ext; try reflexivity.
+    destruct x; rewrite ?src_pty_ext; reflexivity.
+  Qed.
+
+  Lemma expected_fields_ext codec pub fs :
+    expected_fields defs root alloc cpt bts o1 codec pub fs = expected_fields defs root alloc cpt bts o2 codec pub fs.
+  Proof. unfold expected_fields. apply map_ext. intros f. rewrite field_pty_ext. reflexivity. Qed.
+
+  Lemma expected_item_ext codec d :
+    expected_item defs root alloc cpt bts o1 codec d = expected_item defs root alloc cpt bts o2 codec d.
+  Proof.
+    unfold expected_item. destruct (sd_body d) as [fs|vs].
+    - rewrite expected_fields_ext. reflexivity.
+    - cbv zeta. f_equal. f_equal. apply map_ext. intros v. rewrite expected_fields_ext. reflexivity.
+  Qed.
+End OrderExt.
+
+Lemma segs_lead_opt o :
+  segs_lead_of (opt_toks o) = match o with Some t => segs_lead_of t | None => ([], false) end.
+Proof. destruct o; reflexivity. Qed.
+
+(** with the bit-order markers substituted as the harness does, [expected_of_source] is the
+    checker's [expected_of] *)
+Theorem expected_of_source_settings defs s otp d :
+  (forall lsb, tpath_pty (ProgramSkel.alloc_segs s) (otp lsb) = bits_order_pty lsb) ->
+  expected_of_source defs s otp d = expected_of_settings defs s d.
+Proof.
+  intros H. unfold expected_of_source, expected_of_settings. rewrite !segs_lead_opt.
+  apply expected_item_ext. exact H.
+Qed.
+
+Theorem expected_of_is_settings c d :
+  expected_of c d = expected_of_settings (pg_defs (c5_prog c)) (RunTG.settings_of (RunTG.tg_spec (c5_tg c))) d.
+Proof. reflexivity. Qed.
+
+(** * 6. examples: both sides computed.  Left: the model generates, emits the module, the tokens
+    are read back by Checkers/Parse.v, the item is looked up and stripped ([model_item_at],
+    [strip_item]: the computation of [prop_source_roundtrip]); right: [expected_item] of the SOURCE
+    definition. *)
+
+(** a struct with two unused parameters (marker field [__ignore : PhantomData<(_1, _2)>]) and a
+    [#[codec(compact)]] field *)
+Lemma ex8_roundtrip :
+  option_map strip_item (model_item_at ex8_reg ex8_s ["a"; "Ph"]) =
+  Some (expected_of_source ex8_defs ex8_s ex8_otp ex8_sd).
+Proof. vm_compute. reflexivity. Qed.
+
+Lemma ex8_expected :
+  expected_of_source ex8_defs ex8_s ex8_otp ex8_sd =
+  mk_pitem [] false "Ph" ["_0"; "_1"; "_2"]
+    (BNamed [mk_pfield [] true (Some "x") (PPath true [("std", []); ("vec", []); ("Vec", [PPath false [("_0", [])]])]);
+             mk_pfield [["codec"; "("; "compact"; ")"]] true (Some "n")
+                       (PPath true [("core", []); ("primitive", []); ("u32", [])]);
+             mk_pfield [["codec"; "("; "skip"; ")"]] true (Some "__ignore")
+                       (PPath true [("core", []); ("marker", []);
+                                    ("PhantomData", [PTuple [PPath false [("_1", [])]; PPath false [("_2", [])]]])])])
+    [] false.
+Proof. vm_compute. reflexivity. Qed.
+
+(** an enum with an unused parameter ([__Ignore] variant), tuple / named / unit variants, variant
+    indices, an explicit [Compact<u32>] field and a boxed field *)
+Lemma ex9_roundtrip :
+  option_map strip_item (model_item_at ex9_reg ex8_s ["a"; "En"]) =
+  Some (expected_of_source ex9_defs ex8_s ex8_otp ex9_sd).
+Proof. vm_compute. reflexivity. Qed.
+
+Lemma ex9_expected :
+  expected_of_source ex9_defs ex8_s ex8_otp ex9_sd =
+  mk_pitem [] true "En" ["_0"; "_1"] BUnit
+    [mk_pvariant [["codec"; "("; "index"; "="; "0"; ")"]] "A"
+       (BTuple [mk_pfield [] false None (PPath false [("_0", [])]);
+                mk_pfield [] false None
+                  (PPath true [("std", []); ("boxed", []);
+                               ("Box", [PPath true [("std", []); ("vec", []); ("Vec", [PPath false [("_0", [])]])]])])]);
+     mk_pvariant [["codec"; "("; "index"; "="; "1"; ")"]] "B"
+       (BNamed [mk_pfield [["codec"; "("; "compact"; ")"]] false (Some "n")
+                          (PPath true [("core", []); ("primitive", []); ("u32", [])])]);
+     mk_pvariant [["codec"; "("; "index"; "="; "5"; ")"]] "C" BUnit;
+     mk_pvariant [] "__Ignore"
+       (BTuple [mk_pfield [] false None
+                  (PPath true [("core", []); ("marker", []); ("PhantomData", [PPath false [("_1", [])]])])])]
+    false.
+Proof. vm_compute. reflexivity. Qed.
+
+(** the programs of Model/ProgramExamples.v (ex6: an enum over Option / BTreeMap / a bit sequence /
+    Cow; ex7: a struct over tuples / Option / Result / Range) and of C05_example (ex5: a skipped
+    parameter, a boxed field, a compact field) *)
+Lemma ex6_roundtrip :
+  option_map strip_item (model_item_at ex6_reg ex6_s ["a"; "Bar"]) =
+  Some (expected_of_source ex6_defs ex6_s ex6_otp ex6_sd).
+Proof. vm_compute. reflexivity. Qed.
+
+Lemma ex7_roundtrip :
+  option_map strip_item (model_item_at ex7_reg f19_s ["a"; "Pt"]) =
+  Some (expected_of_source ex7_defs f19_s (order_tp_of f19_s) ex7_sd).
+Proof. vm_compute. reflexivity. Qed.
+
+Lemma ex5_roundtrip :
+  option_map strip_item (model_item_at ex5_reg ex5_s ["a"; "Foo"]) =
+  Some (expected_of_source ex5_defs ex5_s ex5_otp ex5_sd).
+Proof. vm_compute. reflexivity. Qed.
+
+(** non-vacuity of [source_roundtrip_module]: on ex8 every hypothesis holds, so the theorem applies *)
+Lemma ex8_RegistryOf : RegistryOf ex8_defs (label_at ex8_labels) ex8_reg.
+Proof. apply registry_ofb_sound; vm_compute; reflexivity. Qed.
+
+Lemma ex8_by_theorem :
+  forall m toks,
+    generate ex8_reg ex8_s (types_equal ex8_reg) = Ok m -> emit_module ex8_s m = Ok toks ->
+    items_plain ex8_s m = true ->
+    exists pm it, parse_module toks = Some pm /\ lookup_item pm ["a"; "Ph"] = Some it /\
+                  strip_item it = expected_of_source ex8_defs ex8_s ex8_otp ex8_sd.
+Proof.
+  intros m toks Hg He Hp.
+  apply (source_roundtrip_module ex8_defs (label_at ex8_labels) ex8_reg ex8_s ex8_otp ex8_RegistryOf)
+    with (d := 0%nat) (sd := ex8_sd) (teq := types_equal ex8_reg) (m := m) (id := 0%N)
+         (args := [SPrimT PU16; SPrimT PBool; SPrimT PU8]); try assumption; try (vm_compute; reflexivity).
+  - intros sd [<-|[]]. vm_compute. reflexivity.
+  - apply order_resolvesb_sound. vm_compute. reflexivity.
+  - intros d1 d2 sd1 sd2 H1 H2 _. destruct d1 as [|[|d1]], d2 as [|[|d2]]; try discriminate; reflexivity.
+  - intros [|]; vm_compute; discriminate.
+  - intros id args H. unfold label_at in H.
+    destruct (N.to_nat id) as [|[|[|[|[|[|[|[|[|n]]]]]]]]]; cbn in H; try discriminate;
+      try (destruct n; discriminate H); injection H as <-; vm_compute; auto.
+Qed.
+
+Lemma ex8_facts :
+  registry_ofb ex8_defs ex8_labels ex8_reg = true /\ registry_ofb ex9_defs ex9_labels ex9_reg = true /\
+  (exists m toks, generate ex8_reg ex8_s (types_equal ex8_reg) = Ok m /\ emit_module ex8_s m = Ok toks /\
+                  items_plain ex8_s m = true).
+Proof.
+  split; [vm_compute; reflexivity|]. split; [vm_compute; reflexivity|].
+  eexists. eexists. split; [vm_compute; reflexivity|]. split; vm_compute; reflexivity.
+Qed.
